@@ -106,7 +106,7 @@ func heldAt(fn *ssa.Function, ins ssa.Instruction, obj ssa.Value) string {
 }
 
 func checkC18(c *Ctx) {
-	c.Explanation = "Decides the structure that makes the recent-message queue a bounded FIFO that is safe under concurrency: (R1) every access to the queue's fields (Items, NextIndex, MaxItems) in non-test code happens while the queue's own lock is held — in an exported method between Lock/RLock and its release (deferred, or not reachable before the access), in an unexported helper only if every caller holds the lock — and every mutation (field store, map update, delete) holds the write lock; (R2) no code outside the package touches the fields; (R3) the insertion key is NextIndex, incremented by exactly one after the insert and nowhere else; eviction happens before the insert, is guarded by len(Items) >= MaxItems, and deletes keys in ascending order; snapshots and eviction obtain their keys from a helper that collects every key and sorts it ascending on all paths; the snapshot appends in that order into a fresh slice built entirely under the read lock."
+	c.Explanation = "Decides the structure that makes the recent-message queue a bounded FIFO that is safe under concurrency: (R1) every access to the queue's fields (Items, NextIndex, MaxItems) in non-test code happens while the queue's own lock is held — in an exported method between Lock/RLock and its release (deferred, or not reachable before the access), in an unexported helper only if every caller holds the lock — and every mutation (field store, map update, delete) holds the write lock; (R2) no code outside the package touches the fields; (R3) the insertion key is NextIndex, incremented by exactly one after the insert and nowhere else; eviction happens before the insert, is guarded by len(Items) >= MaxItems, and deletes keys in ascending order; snapshots and eviction obtain their keys from a helper that collects every key and sorts it ascending on all paths; the snapshot appends in that order into a fresh slice built entirely under the read lock. (R4) every call of Add in the module is synchronous (never started as a goroutine or deferred), so arrival order is call order."
 	c.NotDecided = "sort and map semantics; index overflow after 2^63 additions; linearizability as such (follows from R1 + atomic sections, not enumerated)."
 	P := c.P
 	pkg := "apps/proxy/circular_queue"
@@ -486,6 +486,27 @@ func checkC18(c *Ctx) {
 			elems, complete := sliceElements(r.Results[0])
 			_ = elems
 			c.Check(complete, "C18-R3", "GetMessages:fresh-result", r.Pos(), "the snapshot is a fresh slice built in this call", "the snapshot slice is not freshly built in the call (shared backing store)")
+		}
+	}
+	// R4: arrival order is the order of the Add calls only if they are made one after the other:
+	// every call of Add in the module is an ordinary call, never `go q.Add(m)` (or deferred)
+	if addFn := P.Func(pkg, "(*CircularQueue).Add"); addFn != nil {
+		async := false
+		for _, g := range P.ModFuncs() {
+			eachInstr(g, func(ins ssa.Instruction) {
+				ci, ok := ins.(ssa.CallInstruction)
+				if !ok || ci.Common().StaticCallee() != addFn {
+					return
+				}
+				if _, isCall := ins.(*ssa.Call); !isCall {
+					async = true
+					c.Fail("C18-R4", "add-in-arrival-order("+P.FnKey(g)+")", ins.Pos(), "refuted", "a message is added to the queue from a goroutine of its own (or deferred): additions can overtake one another, so the queue no longer holds the most recent messages in arrival order")
+				}
+			})
+			// a function literal that does nothing but call Add and is started as a goroutine
+		}
+		if !async {
+			c.OK("C18-R4", "add-in-arrival-order", addFn.Pos(), "every call of Add is synchronous")
 		}
 	}
 	c.MinInstances("C18-R1", 12)
